@@ -157,7 +157,10 @@ def gen_irset(rng, special=None, toggle=None, dense=None, long_text=None):
 
     def text(maxlen):
         n = rng.choice([1, 2, 5, rng.randrange(1, 30), rng.randrange(1, maxlen)])
-        return "".join(rng.choice("0123456789ABCDEFabcdef,|;") for _ in range(n))
+        t = "".join(rng.choice("0123456789ABCDEFabcdef,|;") for _ in range(n))
+        if rng.random() < 0.06:     # a stored text is sent as it is stored: blanks at either end are part of it
+            t = rng.choice([" ", "  ", "\t", ""]) + t + rng.choice([" ", "\n", "", " "])
+        return t
     longt = rng.random() < 0.15 if long_text is None else long_text
     waves = [{"Key": k, "Para": text(12), "HexCode": text(2000 if longt else 120)} for k in keys]
     return {"IRSetID": rid, "OnOffType": 1 if toggle else 0, "IRWaveList": waves}
